@@ -36,9 +36,13 @@ MOLS = {
     "hcn": dict(batch=["hcn"]),
     "hscl": dict(batch=["hscl"]),
     "h2s": dict(batch=["h2s"]),
+    "far2": dict(batch=["h2o_far2"]),
+    "far2mix": dict(batch=["h2o_far2", "h2co"]),
 }
 mdsim.POOL.setdefault("ch3", ([6, 1, 1, 1], [[0.0, 0.0, 0.0], [1.079, 0.0, 0.0], [-0.5395, 0.9344, 0.0], [-0.5395, -0.9344, 0.0]]))
 mdsim.POOL.setdefault("oh", ([8, 1], [[0.0, 0.0, 0.0], [0.97, 0.0, 0.0]]))
+# two water molecules 25 A apart in ONE molecule record: atom pairs beyond every pair cutoff (overlap range 40 bohr)
+mdsim.POOL.setdefault("h2o_far2", ([8, 8, 1, 1, 1, 1], [[0.0, 0.0, 0.0], [25.0, 0.3, -0.2], [0.9584, 0.0, 0.0], [-0.2400, 0.9279, 0.0], [25.0, 1.2584, -0.2], [25.93, 0.06, -0.2]]))
 mdsim.POOL.setdefault("hscl", ([17, 16, 1], [[0.0, 0.0, 0.0], [0.0, 2.05, 0.0], [1.30, 2.35, 0.1]]))
 
 # settings families: jobs of one family may share ONE dictionary object (with different molecules)
@@ -78,6 +82,8 @@ JOBS = {
     "sp_am1_nh3": dict(fam="am1", mol="nh3", kind="sp"),
     "sp_am1_ch4": dict(fam="am1", mol="ch4", kind="sp"),
     "sp_am1_mix3": dict(fam="am1", mol="mix3", kind="sp"),
+    "sp_am1_far2": dict(fam="am1", mol="far2", kind="sp"),
+    "sp_pm3_far2mix": dict(fam="pm3_pulay", mol="far2mix", kind="sp"),
     "sp_am1p_h2co": dict(fam="am1_pulay", mol="h2co", kind="sp"),
     "sp_pm3_ch4": dict(fam="pm3_pulay", mol="ch4", kind="sp"),
     "sp_pm3_mix": dict(fam="pm3_pulay", mol="mix", kind="sp"),
